@@ -57,6 +57,18 @@ var properties = map[string]*propSpec{
 		Rule: "runs of scenario byz (a node that corrupts 1-3 tape-chosen outgoing frames per run); distinct = distinct canonical-log fingerprint; non-trivial = at least one mutation fired and at least one operation completed"},
 	"C07": {Level: "exploration", Scenarios: []scenRef{{Name: "wr", quickS: 20, thoroughS: 600}}, CrashProperty: "C07",
 		Rule: "runs of scenario wr; distinct = distinct canonical-log fingerprint; non-trivial = at least one write fault, cancel or park fired and at least one operation completed"},
+	"C13": {Level: "exploration", Scenarios: []scenRef{{Name: "retry", quickS: 20, thoroughS: 600}},
+		Rule: "runs of scenario retry (scripted per-attempt outcomes x retry policy x speculative policy x tape-chosen host order, exact and relaxed configurations); distinct = distinct canonical-log fingerprint; non-trivial = at least one failed attempt, cancel, connection loss or park occurred and at least one operation completed"},
+	"C14": {Level: "exploration", Scenarios: []scenRef{{Name: "prep", quickS: 20, thoroughS: 600}},
+		Rule: "runs of scenario prep (concurrent executors of 1-3 statements, small caches, PREPARE failures, UNPREPARED answers after node restarts, parks inside prepareStatement); distinct = distinct canonical-log fingerprint; non-trivial = at least one fault or park fired and at least one operation completed"},
+	"C15": {Level: "exploration", Scenarios: []scenRef{{Name: "page", quickS: 20, thoroughS: 600}},
+		Rule: "runs of scenario page (scripted pages incl. empty ones, page sizes, prefetch thresholds, four consumers stepped row by row, manual paging, a fetch failure at any page, prefetch reply racing the consumer); distinct = distinct canonical-log fingerprint; non-trivial = at least one fault or park fired and at least one operation completed"},
+	"C19": {Level: "exploration", Scenarios: []scenRef{{Name: "uuid", quickS: 10, thoroughS: 300, Extra: []string{"-sim.nofaultevery=0"}}},
+		Rule: "runs of scenario uuid: 2-8 goroutines generating up to 200 time-UUIDs each at one stalled simulated instant (< 16384 per instant: the 14-bit clock sequence), tape-chosen forward clock jumps between batches; distinct = distinct canonical-log fingerprint; non-trivial = concurrent generators ran and at least one batch completed"},
+	"C20": {Level: "exploration", Scenarios: []scenRef{{Name: "sec", quickS: 25, thoroughS: 600}},
+		Rule: "runs of scenario sec: one cell of the documented TLS table (Config nil/present x InsecureSkipVerify x EnableHostVerification x ServerName x CA / key-pair file variants x certificate presented x host form) with real crypto/tls over the simulated transport, or one cell of the authentication table (class demanded x client authenticator x credentials); distinct = distinct canonical-log fingerprint; non-trivial = a non-default variant was drawn and the session attempt completed"},
+	"C17": {Level: "exploration", Scenarios: []scenRef{{Name: "sec", quickS: 10, thoroughS: 120}}, DeadlockProperty: "C17",
+		Rule: "(interim) runs of scenario sec observed for goroutines surviving a failed NewSession"},
 	"C11": {Level: "exploration", Scenarios: []scenRef{{Name: "pick", quickS: 15, thoroughS: 600}},
 		Rule: "runs of scenario pick: generated cluster layouts and add/remove/up/down/keyspace histories against a host-set model, picks iterated to exhaustion, plus scheduled picks racing mutations; distinct = distinct canonical-log fingerprint; non-trivial = at least one state-changing history op was applied and at least one checked pick with two or more known hosts completed"},
 	"C08": {Level: "exploration", Scenarios: []scenRef{{Name: "ids", quickS: 15, thoroughS: 600, Extra: []string{"-sim.nofaultevery=0"}}}, CrashProperty: "C08",
